@@ -747,3 +747,60 @@ def c20_handler_frames(v):
     raises = [n for n in ast.walk(hm) if isinstance(n, ast.Raise)]
     v.oblige(st, z3.BoolVal(len(raises) >= 2 and isinstance(hm.body[-1], ast.Raise)),
              "C20:lemma:unknown-message-or-out-of-order-raises", "handle_message_received ends in `raise` and refuses non-Hello first")
+
+
+# ---------------------------------------------------------------------------------------------------- C11
+
+@LM.lemma("C11.extension", props=["C11"])
+def c11_extension(v):
+    """Extension lemma of the framing specification: for byte strings a, b
+         parse(a) stops with residue r      ==>  parse(a + b) delivers parse(a)'s payloads, then what parse(r + b) delivers,
+                                                 and ends (stops / refuses) as parse(r + b) does;
+         parse(a) refuses                   ==>  parse(a + b) refuses, after the same deliveries.
+    With the contract of MessageReceiver.receive (delivered' = delivered + parse_delivered(pending + chunk),
+    pending' = parse_rest(pending + chunk)) this gives by induction over the chunks: what is delivered for c1, c2, ...
+    is parse(c1 + c2 + ...), for every way of cutting the stream.  Here: induction over the frames of `a`, base (no
+    complete frame in a) and step (a starts with a complete frame; hypothesis for the rest of a)."""
+    from pyvc.proof import Proof
+    from pyvc import BYTES
+    st = _lemma_state(v, 'skepticoin.networking.remote_peer')
+    a = v.fresh('a', BYTES)
+    b = v.fresh('b', BYTES)
+    st.frame.vars.update(a=a, b=b)
+    CLAIM_OK = ("(G.parse_ok(%(a)s + b) == G.parse_ok(G.parse_rest(%(a)s) + b))"
+                " and same(G.parse_delivered(%(a)s + b), G.parse_delivered(%(a)s) + G.parse_delivered(G.parse_rest(%(a)s) + b))"
+                " and G.parse_rest(%(a)s + b) == G.parse_rest(G.parse_rest(%(a)s) + b)")
+    CLAIM_REFUSED = "(not G.parse_ok(%(a)s + b)) and same(G.parse_delivered(%(a)s + b), G.parse_delivered(%(a)s))"
+    FIRST_FRAME = ("len(a) >= 8 and a[:4] == MAGIC and G.be(a[4:8]) <= 33554432 and len(a) >= 8 + G.be(a[4:8])")
+    # ---- base: a contains no complete frame and no refusal point -> parse(a) stops at once with residue a
+    P = Proof(v, st.fork(), "C11:lemma:extension:")
+    P.assume('stuck', "G.parse_ok(a) and len(G.parse_delivered(a)) == 0 and G.parse_rest(a) == a")
+    P.have('base-stops', CLAIM_OK % {'a': 'a'}, using=['stuck'])
+    # ---- base: a refuses at its very first frame header (wrong magic / over-limit length)
+    P2 = Proof(v, st.fork(), "C11:lemma:extension:")
+    P2.assume('refused-at-head', "(len(a) >= 4 and a[:4] != MAGIC) or (len(a) >= 8 and a[:4] == MAGIC and G.be(a[4:8]) > 33554432)")
+    P2.have('base-refuses', CLAIM_REFUSED % {'a': 'a'}, using=['refused-at-head'])
+    # ---- step: a starts with a complete frame; t = the rest of a; hypothesis: the claim for t
+    P3 = Proof(v, st.fork(), "C11:lemma:extension:")
+    P3.assume('first-frame', FIRST_FRAME)
+    P3.let('t', "a[8 + G.be(a[4:8]):]")
+    P3.have('step-unfold-a', "G.parse_ok(a) == G.parse_ok(t) and same(G.parse_delivered(a), [a[8:8 + G.be(a[4:8])]] + G.parse_delivered(t))"
+            " and G.parse_rest(a) == G.parse_rest(t)", using=['first-frame'])
+    P3.have('step-unfold-ab', "G.parse_ok(a + b) == G.parse_ok(t + b)"
+            " and same(G.parse_delivered(a + b), [a[8:8 + G.be(a[4:8])]] + G.parse_delivered(t + b))"
+            " and G.parse_rest(a + b) == G.parse_rest(t + b)", using=['first-frame'])
+    P3a = P3.fork()
+    P3a.assume('t-ok', "G.parse_ok(t)")
+    P3a.assume('ih-ok', CLAIM_OK % {'a': 't'})
+    P3a.have('step-stops', "implies(G.parse_ok(a), %s)" % (CLAIM_OK % {'a': 'a'}), using=['step-unfold-a', 'step-unfold-ab', 't-ok', 'ih-ok'])
+    P3b = P3.fork()
+    P3b.assume('t-refused', "not G.parse_ok(t)")
+    P3b.assume('ih-refused', CLAIM_REFUSED % {'a': 't'})
+    P3b.have('step-refuses', "implies(not G.parse_ok(a), %s)" % (CLAIM_REFUSED % {'a': 'a'}),
+             using=['step-unfold-a', 'step-unfold-ab', 't-refused', 'ih-refused'])
+    # the specification's constants are the code's
+    import skepticoin.networking.remote_peer as rp
+    from skepticoin.networking.params import MAX_MESSAGE_SIZE
+    from .ghosts import FRAME_MAGIC, FRAME_LIMIT
+    v.oblige(st, z3.BoolVal(rp.MAGIC == FRAME_MAGIC and MAX_MESSAGE_SIZE == FRAME_LIMIT), "C11:lemma:constants",
+             "magic and limit of the specification are those of the code")
